@@ -2,12 +2,12 @@
    Model: Model/Passes.v (the passes of asm.assemble, after parsing), tied to the code by the pipeline
    correspondence, which compares error CLASS (AssemblerError vs raw exception) and LOCATION (file, line) of the model
    with the real assembler on programs with one planted fault (tools/errors_engine.py).
-   PARTIAL: the theorems cover where an AssemblerError points and the fault classes decided inside expression
-   evaluation, the label pass and the data passes; that NO raw exception escapes from the whole pipeline on every
-   parser-shaped input is decided by the falsifier and the correspondence only. *)
+   Both halves are theorems about the models: where an AssemblerError points (C15_located) and that no raw exception leaves the
+   pipeline on well-formed items (C15_no_internal_exception), with the parser-level facts C15_malformed_expression /
+   C15_align_operand; what stays outside is stated in the comment of C15_no_internal_exception. *)
 From Coq Require Import ZArith List String.
 From BB Require Import Base.PyBase Gen.Encoders Model.Items Model.Encode Model.Passes
-  Proofs.Layout Proofs.Pipeline Proofs.Errors Proofs.Examples Model.Parser Proofs.ParseErrors.
+  Proofs.Layout Proofs.Pipeline Proofs.Errors Proofs.Examples Model.Parser Proofs.ParseErrors Proofs.EncSig Proofs.EncTotal Proofs.NoRaw.
 Import ListNotations.
 Open Scope Z_scope.
 
@@ -100,6 +100,37 @@ Theorem C15_encoder_faults :
     encode_item l cls name fs c = Fail (PAsm l).
 Proof. exact encode_item_value_error. Qed.
 Print Assumptions C15_encoder_faults.
+
+(* THE SECOND HALF OF THE PROPERTY, for the whole pipeline: on well-formed items NO raw (internal) exception leaves any of the 16
+   passes, with compression off or on, for any initial constants and labels: the run ends with a result, with the assembler's
+   own error (located by C15_located), or outside the model (Unsupported: a pack format or expression text the model does not
+   cover) -- never with Fail (PRaw _).
+   Well-formed (NoRaw.okb 0, a boolean, spelled out in Proofs/NoRaw.v) is what the parser hands over:
+   * an instruction of class C carries a mnemonic of C's GENERATED table and, in args() order, exactly the operand fields of C's
+     GENERATED class_fields entry: register-like fields hold any token or alias value, `imm` holds a parser-shaped expression;
+   * a pseudo-instruction has the operand count of its row in the table REGENERATED from transform_pseudo_instructions (Gen/Pseudo.v)
+     and, for li, carries the result of parse_immediate on its operands (which is never a raw failure: C15_malformed_expression);
+   * align N has N >= 1 (C15_align_operand); sequence / shorthand directives carry a name of the size tables; pack / shorthand
+     values and constants are parser-shaped expressions; an include_bytes file has the announced size.
+   NOT well-formed, hence outside this theorem: a wrong operand COUNT of a pseudo-instruction (`mv t0`: raw ValueError from tuple
+   unpacking, not a fault class of the property), a shorthand directive spelled in upper case (`DB 1`: KeyError), a file that
+   disappears or changes size between read_lines and resolve_include_bytes.
+   The proof goes through every pass with a stage-indexed invariant; it uses, for the generated code: the totality of all 93
+   generated encoders (Proofs/EncTotal.v: Ok or ValueError on well-kinded operands), a computed check that every rule of the
+   generated criteria / construction tables reads only operands its class has and builds a well-shaped compressed instruction
+   (NoRaw.criteria_ok), the same for every pseudo template (NoRaw.templates_ok), and the generated flag
+   select_converts_value_error (the try/except around the compression predicates: D13). *)
+Theorem C15_no_internal_exception :
+  forall its consts0 labels0 compress x,
+    Forall (fun li => NoRaw.okb 0 (snd li) = true) its ->
+    assemble_items its consts0 labels0 compress <> Fail (PRaw x).
+Proof.
+  intros its c0 l0 cmp x H. eapply NoRaw.good_no_raw. apply NoRaw.assemble_good. exact EncTotal.encode_total. exact H.
+Qed.
+Print Assumptions C15_no_internal_exception.
+Example C15_no_internal_exception_example :      (* the hypothesis holds of real programs: the example programs of C03 / C12 *)
+  Forall (fun li => NoRaw.okb 0 (snd li) = true) ex_its /\ Forall (fun li => NoRaw.okb 0 (snd li) = true) ex12.
+Proof. split; repeat constructor. Qed.
 
 (* non-vacuity: a program with an undefined label fails with the assembler's error at the referring line *)
 Example C15_example :
